@@ -5,6 +5,7 @@
 -/
 import NngModel.Proofs.LifeStep
 import NngModel.Proofs.LifeGlobalStep
+import NngModel.Proofs.LifeJudgeMain
 import NngModel.Generated.C14
 namespace Nng.C14
 open Nng.Life Nng.LifeModel Nng.Generated
@@ -306,13 +307,34 @@ theorem never_stuck_needs_not_stopped :
       fun e => (e.dialer, e.closed, e.stopped, e.armed, e.cool)) = [(false, false, true, false, none)] :=
   ⟨by decide, by decide⟩
 
-/-- NOT PROVED (statement only): the C14 judge of Spec/Life.lean accepts every trace the model can
-    produce, for every op sequence and every oracle.  No counter-example in 51 000 random op sequences
-    (incl. slot re-use, close-class results on open endpoints, negative reconnect times) replayed through
-    the compiled judge; a proof needs a simulation relation between the judge's association lists and
-    the model state for each of its ~25 event handlers. -/
+/-- The unconditional form: the C14 judge of Spec/Life.lean accepts every trace the model can produce, for
+    every op sequence and every oracle.  It is FALSE (`judge_needs_modelled`): an op the model does not
+    cover (`race`, `close2`, an unknown protocol or option, a re-used context slot) makes the model answer
+    `UNMODELLED` from then on, while the judge keeps its clock and its obligations.  Kept as a `def`. -/
 def judge_accepts_model_statement : Prop :=
   ∀ tr : List (LOp × List Nat), (judgeRun (modelTrace {} tr)).err14 = none
+
+/-- the hypothesis of `judge_accepts_model`: every op of the sequence was modelled (`unmodelled` is sticky,
+    so this speaks about every prefix); decidable -/
+def Modelled (tr : List (LOp × List Nat)) : Prop := (run {} tr).unmodelled = false
+
+instance (tr : List (LOp × List Nat)) : Decidable (Modelled tr) := inferInstanceAs (Decidable (_ = false))
+
+/-- The C14 judge of Spec/Life.lean accepts every trace of the model, for every op sequence in which every
+    op is modelled and for every oracle (`Proofs/LifeJudge*.lean`: a relation between the model state and the
+    judge's association lists, kept by every op followed by the timers and the judge's end-of-step clauses). -/
+theorem judge_accepts_model (tr : List (LOp × List Nat)) (hm : Modelled tr) :
+    (judgeRun (modelTrace {} tr)).err14 = none :=
+  (judge_accepts tr hm).1
+
+/-- the hypothesis is needed: after an unmodelled op (here: a socket of an unknown protocol) the model is
+    silent, and the judge reports the redial it was still waiting for as missing -/
+theorem judge_needs_modelled : ¬ judge_accepts_model_statement := by
+  intro h
+  have := h [(.openSock 0 "pull", []), (.dial 0 true, []), (.connDone 0 (.error 5), []), (.openSock 1 "foo", []),
+    (.advance 100000, [])]
+  revert this
+  decide
 
 /-! ### non-vacuity: a concrete history with a full notification sequence, a failed background
     dial and a redial read back from the trace -/
@@ -336,5 +358,7 @@ example : (run {} [(.openSock 0 "pull", []), (.dial 0 true, []), (.connDone 0 (.
 example : (run {} [(.openSock 0 "pull", []), (.listen 0, []), (.connDone 0 (.error 2), [])]).eps.map
     (fun e => (e.armed, e.cool, e.stopped)) = [(false, some 100, false)] := by decide
 example : (judgeRun (modelTrace {} sampleTrace)).err14 = none := by decide
+example : Modelled sampleTrace := by decide
+example : (judgeRun (modelTrace {} sampleTrace)).err14 = none := judge_accepts_model sampleTrace (by decide)
 
 end Nng.C14
